@@ -107,7 +107,15 @@ async def e2e_case(ctx, rng, k):
             else:
                 data = bytes((total + j) % 251 for j in range(size))
             total += len(data)
-            chans[i].write(data)
+            if not encoding and rng.random() < 0.4:
+                # the caller hands over a bytearray and re-uses it straight away: write() must have taken a copy
+                scratch = bytearray(data)
+                chans[i].write(scratch)
+                scratch[:] = b'\xee' * len(scratch)
+                del scratch[len(scratch) // 2:]
+                ctx.count('e2e.write.bytearray_reused')
+            else:
+                chans[i].write(data)
             written[i].append(data)
             if rng.random() < 0.3:
                 await asyncio.sleep(0)
